@@ -233,9 +233,10 @@ type MonRunner struct {
 
 	ctx    context.Context
 	cancel context.CancelFunc
-	wg     sync.WaitGroup
 
 	mu           sync.Mutex
+	idle         *sync.Cond // signalled when running drops to 0
+	running      int        // number of Run calls in flight (a WaitGroup would be misused: Add concurrent with Wait)
 	canceled     bool
 	onTaskChange func(t *task.Task)
 }
@@ -246,7 +247,9 @@ func newMonRunner(l *Log, g *Gates, jobID, pipeline string, env map[string]strin
 	for k, v := range env {
 		envCopy[k] = v
 	}
-	return &MonRunner{log: l, gates: g, JobID: jobID, Pipeline: pipeline, Env: envCopy, ctx: ctx, cancel: cancel}
+	m := &MonRunner{log: l, gates: g, JobID: jobID, Pipeline: pipeline, Env: envCopy, ctx: ctx, cancel: cancel}
+	m.idle = sync.NewCond(&m.mu)
+	return m
 }
 
 func (m *MonRunner) SetOnTaskChange(f func(t *task.Task)) { m.onTaskChange = f }
@@ -267,9 +270,6 @@ func strMap(in map[string]interface{}) map[string]string {
 
 // Run implements runner.Runner
 func (m *MonRunner) Run(t *task.Task) error {
-	m.wg.Add(1)
-	defer m.wg.Done()
-
 	jobID := m.JobID
 	if t.Variables != nil {
 		if v, ok := t.Variables.Get("__jobID").(string); ok && v != "" {
@@ -291,7 +291,16 @@ func (m *MonRunner) Run(t *task.Task) error {
 		info.Vars = t.Variables.Map()
 	}
 	m.log.Add(Event{Kind: KRunEnter, Job: jobID, Task: t.Name, Pipe: m.Pipeline, Data: info})
+	m.running++
 	m.mu.Unlock()
+	defer func() {
+		m.mu.Lock()
+		m.running--
+		if m.running == 0 {
+			m.idle.Broadcast()
+		}
+		m.mu.Unlock()
+	}()
 
 	defer func() {
 		if !t.Errored && !t.Skipped {
@@ -353,8 +362,10 @@ func (m *MonRunner) Cancel() {
 		m.canceled = true
 		m.cancel()
 	}
+	for m.running > 0 {
+		m.idle.Wait()
+	}
 	m.mu.Unlock()
-	m.wg.Wait()
 	m.log.Add(Event{Kind: KCancelExit, Job: m.JobID, Pipe: m.Pipeline})
 }
 
